@@ -54,7 +54,7 @@ func (r *Receiver) SegmentHandlerFunc(w http.ResponseWriter, req *http.Request) 
 		// "all requests must have this user and password": MPD uploads as well
 		if chCfg := r.channelMgr.channelConfig(chName); !authorized(req, chCfg.AuthUser, chCfg.AuthPswd) {
 			slog.Error("Unauthorized", "chName", chName)
-			http.Error(w, "Unauthorized", http.StatusUnauthorized)
+			unauthorized(w)
 			return
 		}
 		handleMPD(w, req, r.storage, chName)
@@ -72,7 +72,7 @@ func (r *Receiver) SegmentHandlerFunc(w http.ResponseWriter, req *http.Request) 
 		// request must not leave a channel (MPD, buffers, goroutine) behind.
 		if chCfg := r.channelMgr.channelConfig(stream.chName); !chCfg.Ignore && !authorized(req, chCfg.AuthUser, chCfg.AuthPswd) {
 			slog.Error("Unauthorized", "chName", stream.chName)
-			http.Error(w, "Unauthorized", http.StatusUnauthorized)
+			unauthorized(w)
 			return
 		}
 		verifGate("add:" + stream.trName)
@@ -93,7 +93,7 @@ func (r *Receiver) SegmentHandlerFunc(w http.ResponseWriter, req *http.Request) 
 		user, pswd, ok := req.BasicAuth()
 		if !ok || user != ch.authUser || pswd != ch.authPswd {
 			log.Error("Unauthorized", "user", user, "chName", stream.chName)
-			http.Error(w, "Unauthorized", http.StatusUnauthorized)
+			unauthorized(w)
 			return
 		}
 	}
@@ -411,6 +411,13 @@ func (r *Receiver) SegmentHandlerFunc(w http.ResponseWriter, req *http.Request) 
 		}
 	}
 	trD.nrSegsReceived++
+}
+
+// unauthorized answers 401 with the basic-auth challenge (RFC 9110 15.5.2, RFC 7617): clients like ffmpeg
+// and curl --anyauth only send credentials in answer to it.
+func unauthorized(w http.ResponseWriter) {
+	w.Header().Set("WWW-Authenticate", `Basic realm="cmaf-ingest", charset="UTF-8"`)
+	http.Error(w, "Unauthorized", http.StatusUnauthorized)
 }
 
 // authorized checks the basic-auth credentials of a request against those of a channel (none set: open).
